@@ -308,7 +308,7 @@ def check_entry(rep, it, dec, tag, fname, args, st, tenv, want, beh, behaviour_l
     s2, rv = outs[0]
     rep.states += 1
     if is_abnormal(rv):
-        rep.violation('C01:wrapper:' + tag, f'{tag}: {rv!r}', {})
+        rep.violation(rep.pid + ':wrapper:' + tag, f'{tag}: {rv!r}', {})
         return
     events = list(s2.aux.get('w', ()))
     O = SO if side == 'ser' else DO
@@ -341,14 +341,27 @@ def check_entry(rep, it, dec, tag, fname, args, st, tenv, want, beh, behaviour_l
             same = val_eq(got_v, exp[0][2])
     rep.query(tag + ':hands-on-the-same-wrapper', 'unsat' if good else 'sat', 0.0, events=[str(e)[:90] for e in events])
     if not good:
-        rep.violation('C01:wrapper:' + tag, f'{tag}: handed on {[str(e)[:120] for e in events]} (result {rv!r:.80})', {'events': [str(e) for e in events]})
+        report_struct(rep, tag, f'{tag}: handed on {[str(e)[:120] for e in events]} (result {rv!r:.80})', [str(e) for e in events])
         return
     m = dec.decide(tag + ':values-and-format-flag-unchanged', s2, z3.Not(same))
     if m is not None:
         if want in ('nested', 'hr'):
             report_hr(rep, side, f'{tag}: the nested value is handed a serializer whose is_human_readable differs from the inner format\'s')
         else:
-            rep.violation('C01:wrapper:' + tag, f'{tag}: the scalar is not forwarded unchanged', {})
+            rep.violation(rep.pid + ':wrapper:' + tag, f'{tag}: the scalar is not forwarded unchanged', {})
+
+
+def report_struct(rep, tag, what, detail):
+    """a wrapper that does not hand on the same wrapper: confirm with the native nested-shape round trips / rejections"""
+    r = replay([{'op': 'nested_shapes'}])[0]
+    r2 = replay([{'op': 'nested_shapes'}], 'release')[0]
+    r3 = replay([{'op': 'smile_nested'}])[0]
+    rep.replayed += 1
+    bad = sorted(k for k, v in r.items() if v is not True) + sorted(k for k, v in r3.items() if any(x != 'equal' for x in v.values()))
+    if bad and r == r2:
+        rep.violation(rep.pid + ':wrapper:' + tag, f'{what}; natively these nested shapes no longer round-trip / are no longer rejected: {bad}', {'op': {'op': 'nested_shapes'}, 'native': r, 'events': detail})
+    else:
+        rep.inconc(f'C01w {tag}: {what} -- the wrapper discipline is broken in the MIR, but none of the native nested shapes misbehaves ({r}); the induction argument of this check no longer applies')
 
 
 def report_hr(rep, side, what):
@@ -357,12 +370,257 @@ def report_hr(rep, side, what):
     rep.replayed += 1
     bad = {k: v for k, v in r.items() if any(x != 'equal' for x in v.values())}
     if bad and r == r2:
-        rep.violation('C01:wrapper:is_human_readable', f'{what}; natively, values whose encoding depends on it do not round-trip through Smile once nested: {bad}', {'op': {'op': 'smile_nested'}, 'native': r})
+        rep.violation(rep.pid + ':wrapper:is_human_readable', f'{what}; natively, values whose encoding depends on it do not round-trip through Smile once nested: {bad}', {'op': {'op': 'smile_nested'}, 'native': r})
     else:
         rep.inconc(f'model mismatch C01w: {what}, but the native nested round trips are fine: {r}')
+
+
+# ------------------------------------------------------------------ deserializer side
+def de_models(h):
+    """PD: inner deserializer; PV: visitor; PS: seed; PA: seq/map/enum access; PVar: variant access.  Each records what it is handed."""
+    tm = {}
+
+    def rec_generic(kind):
+        def t(it, ctx, args, st):
+            m = ctx.callee.method
+            vals = tuple(a for a in args[1:] if not isinstance(a, (Ptr, Agg, Enum)) or isinstance(a, Agg) and a.name in (DO,))
+            wrapped = [a for a in args[1:] if isinstance(a, Agg) and a.name == DO]
+            ev(st, kind, m, tuple(tys(g) for g in ctx.gargs), tuple(w.fields[0].name if isinstance(w.fields[0], Agg) else '?' for w in wrapped),
+               tuple(a for a in args[1:] if z3.is_expr(a)), tuple(bstr_py(sval(st, a)) for a in args[1:] if isinstance(a, Ptr) and isinstance(st.deref_all(a), BStr)))
+            yield st, it.ok(Agg('PValue', (m,)))
+        return t
+    de_methods = ['any', 'bool', 'i8', 'i16', 'i32', 'i64', 'i128', 'u8', 'u16', 'u32', 'u64', 'u128', 'f32', 'f64', 'char', 'str', 'string', 'bytes', 'byte_buf', 'option',
+                  'unit', 'unit_struct', 'newtype_struct', 'seq', 'tuple', 'tuple_struct', 'map', 'struct', 'enum', 'identifier', 'ignored_any']
+    for m in de_methods:
+        tm[('PD', 'Deserializer', 'deserialize_' + m)] = rec_generic('inner')
+    tm[('PD', 'Deserializer', 'is_human_readable')] = lambda it, ctx, args, st: iter([(st, st.deref_all(args[0]).fields[0])])
+    for m in ['bool', 'i8', 'i16', 'i32', 'i64', 'i128', 'u8', 'u16', 'u32', 'u64', 'u128', 'f32', 'f64', 'char', 'str', 'borrowed_str', 'string', 'bytes', 'borrowed_bytes', 'byte_buf',
+              'none', 'some', 'unit', 'newtype_struct', 'seq', 'map', 'enum']:
+        tm[('PV', 'Visitor', 'visit_' + m)] = rec_generic('visitor')
+    tm[('PS', 'DeserializeSeed', 'deserialize')] = rec_generic('seed')
+    tm[('PA', 'SeqAccess', 'next_element_seed')] = rec_generic('access')
+    for m in ['next_key_seed', 'next_value_seed', 'next_entry_seed']:
+        tm[('PA', 'MapAccess', m)] = rec_generic('access')
+    tm[('PA', 'SeqAccess', 'size_hint')] = lambda it, ctx, args, st: iter([(st, it.some(z3.BitVec('hint', 64)))])
+    tm[('PA', 'MapAccess', 'size_hint')] = tm[('PA', 'SeqAccess', 'size_hint')]
+
+    def variant_seed(it, ctx, args, st):
+        ev(st, 'access', 'variant_seed', tuple(tys(g) for g in ctx.gargs), (), (), ())
+        yield st, it.ok(Agg('tuple', (Agg('PValue', ('variant_seed',)), Agg('PVar', ()))))
+    tm[('PA', 'EnumAccess', 'variant_seed')] = variant_seed
+    for m in ['unit_variant', 'newtype_variant_seed', 'tuple_variant', 'struct_variant']:
+        tm[('PVar', 'VariantAccess', m)] = rec_generic('variant')
+
+    def beh(who):
+        def t(it, ctx, args, st):
+            m = ctx.callee.method
+            ev(st, 'behavior', who, m, tuple(tys(g) for g in ctx.gargs))
+            yield from it.call_trait(ctx.fr, ctx.gargs[0], 'serde::Deserializer', m, list(ctx.gargs[1:]), list(args), st)
+        return t
+    for who in ('HB', 'HK'):
+        for m in ['deserialize_bool', 'deserialize_f32', 'deserialize_f64', 'deserialize_bytes', 'deserialize_byte_buf', 'deserialize_struct']:
+            tm[(who, 'Behavior', m)] = beh(who)
+    return tm
+
+
+def mk_de(prog, tm):
+    it = mk(prog, tm)
+    for t, tr in (('PD', 'Deserializer'), ('PA', 'SeqAccess'), ('PA', 'MapAccess'), ('PA', 'EnumAccess'), ('PVar', 'VariantAccess')):
+        it.assoc_types[(t, tr, 'Error')] = P('DeError')
+    it.assoc_types[('PA', 'EnumAccess', 'Variant')] = P('PVar')
+    it.assoc_types[('PV', 'Visitor', 'Value')] = P('PValue')
+    it.assoc_types[('PS', 'DeserializeSeed', 'Value')] = P('PValue')
+    return it
+
+
+def de_wrap(it, st, inner):
+    name = [k for k in it.p.fns if re.search(r'conjure_serde::de::<impl at [^>]*>::new$', k) and 'Override' in it.p.fns[k].header]
+    if len(name) != 1:
+        raise Inconclusive(f'C01w harness: de::Override::new not unique: {name}')
+    return list(it.run(name[0], [inner], st, {'T': P('PD'), 'B': P('HB')}))[0][1]
+
+
+DE_SCALAR = {'bool': z3.Bool('v'), 'i8': z3.BitVec('v', 8), 'i16': z3.BitVec('v', 16), 'i32': z3.BitVec('v', 32), 'i64': z3.BitVec('v', 64), 'i128': z3.BitVec('v', 128),
+             'u8': z3.BitVec('v', 8), 'u16': z3.BitVec('v', 16), 'u32': z3.BitVec('v', 32), 'u64': z3.BitVec('v', 64), 'u128': z3.BitVec('v', 128),
+             'f32': z3.FP('v', z3.Float32()), 'f64': z3.FP('v', z3.Float64()), 'char': z3.BitVec('v', 32)}
+BEHAVIOUR_DE = ('deserialize_bool', 'deserialize_f32', 'deserialize_f64', 'deserialize_bytes', 'deserialize_byte_buf', 'deserialize_struct')
+
+
+def run_de(rep, prog):
+    h = z3.Bool('inner_is_human_readable')
+    tm = de_models(h)
+    n_entry = 0
+
+    def one(tag, fname, args_fn, tenv, expect):
+        """expect(events, result, state) -> (structurally good: bool, z3 Bool that must hold)"""
+        nonlocal n_entry
+        it = mk_de(prog, tm)
+        dec = Decider(rep, it)
+        st = St()
+        args = args_fn(it, st)
+        outs = list(it.run(fname, args, st, tenv))
+        n_entry += 1
+        if len(outs) != 1:
+            rep.inconc(f'C01w {tag}: {len(outs)} paths')
+            return
+        s2, rv = outs[0]
+        rep.states += 1
+        if is_abnormal(rv):
+            rep.violation(rep.pid + ':wrapper:' + tag, f'{tag}: {rv!r}', {})
+            return
+        events = list(s2.aux.get('w', ()))
+        good, same = expect(events, rv, s2, it)
+        rep.query(tag + ':hands-on-the-same-wrapper', 'unsat' if good else 'sat', 0.0, events=[str(e)[:110] for e in events])
+        if not good:
+            report_struct(rep, tag, f'{tag}: handed on {[str(e)[:160] for e in events]} (result {rv!r:.80})', [str(e) for e in events])
+            return
+        m = dec.decide(tag + ':values-and-format-flag-unchanged', s2, z3.Not(same))
+        if m is not None:
+            rep.violation(rep.pid + ':wrapper:' + tag, f'{tag}: a scalar / flag is not forwarded unchanged', {})
+        finish_engine(rep, it)
+
+    name_b, flds = b'N', (b'a', b'b')
+    # ---- Deserializer for Override<PD, HB>
+    for m, fname in sorted(override_methods(prog, 'de/mod.rs', 'Deserializer').items()):
+        tag = f'de:Deserializer::{m}'
+        if m == 'is_human_readable':
+            one(tag, fname, lambda it, st: [st.ref(de_wrap(it, st, Agg('PD', (h,))))], {'T': P('PD'), 'B': P('HB')},
+                lambda evs, rv, s, it: (z3.is_expr(rv), rv == h if z3.is_expr(rv) else z3.BoolVal(True)))
+            continue
+        extra_ints, extra_strs = (), ()
+
+        def args_fn(it, st, m=m):
+            me = de_wrap(it, st, Agg('PD', (h,)))
+            vis = Agg('PV', ())
+            nm = st.ref(bstr(name_b))
+            if m in ('deserialize_unit_struct', 'deserialize_newtype_struct'):
+                return [me, nm, vis]
+            if m == 'deserialize_tuple':
+                return [me, bv(3), vis]
+            if m == 'deserialize_tuple_struct':
+                return [me, nm, bv(3), vis]
+            if m in ('deserialize_struct', 'deserialize_enum'):
+                return [me, nm, st.ref(Seq(tuple(st.ref(bstr(f)) for f in flds))), vis]
+            return [me, vis]
+
+        def expect(evs, rv, s, it, m=m):
+            want_v = f'{DO}<PV, HB>'
+            if m in BEHAVIOUR_DE:
+                ok = len(evs) == 2 and evs[0][:3] == ('behavior', 'HB', m) and evs[0][3] == ('PD', want_v) and evs[1][:2] == ('inner', m) and evs[1][2] == (want_v,) and evs[1][3] == ('PV',)
+                e = evs[1] if ok else None
+            else:
+                ok = len(evs) == 1 and evs[0][:2] == ('inner', m) and evs[0][2] == (want_v,) and evs[0][3] == ('PV',)
+                e = evs[0] if ok else None
+            same = z3.BoolVal(True)
+            if ok:
+                if m in ('deserialize_tuple', 'deserialize_tuple_struct'):
+                    ok = len(e[4]) == 1
+                    same = e[4][0] == bv(3) if ok else same
+                if m in ('deserialize_unit_struct', 'deserialize_newtype_struct', 'deserialize_tuple_struct', 'deserialize_struct', 'deserialize_enum'):
+                    ok = ok and name_b in e[5]
+            return ok, same
+        one(tag, fname, args_fn, {'T': P('PD'), 'B': P('HB'), 'V': P('PV')}, expect)
+    # ---- Visitor for Override<PV, HB>
+    for m, fname in sorted(override_methods(prog, 'de/mod.rs', 'Visitor').items()):
+        if m == 'expecting':
+            continue
+        tag = f'de:Visitor::{m}'
+        kind = m[len('visit_'):]
+
+        def args_fn(it, st, kind=kind):
+            me = de_wrap(it, st, Agg('PV', ()))
+            if kind in DE_SCALAR:
+                return [me, DE_SCALAR[kind]]
+            if kind in ('str', 'borrowed_str', 'bytes', 'borrowed_bytes'):
+                return [me, st.ref(bstr(b'xy'))]
+            if kind in ('string', 'byte_buf'):
+                return [me, bstr(b'xy')]
+            if kind in ('none', 'unit'):
+                return [me]
+            if kind in ('some', 'newtype_struct'):
+                return [me, Agg('PD', (h,))]
+            return [me, Agg('PA', ())]
+
+        def expect(evs, rv, s, it, kind=kind, m=m):
+            ok = len(evs) == 1 and evs[0][:2] == ('visitor', m)
+            same = z3.BoolVal(True)
+            if not ok:
+                return ok, same
+            e = evs[0]
+            if kind in DE_SCALAR:
+                ok = len(e[4]) == 1
+                same = val_eq(e[4][0], DE_SCALAR[kind]) if ok else same
+            elif kind in ('some', 'newtype_struct'):
+                ok = e[2][:1] == (f'{DO}<PD, HB>',) and e[3] == ('PD',)
+            elif kind in ('seq', 'map', 'enum'):
+                ok = e[2][:1] == (f'{DO}<PA, HB>',) and e[3] == ('PA',)
+            elif kind in ('str', 'borrowed_str', 'bytes', 'borrowed_bytes'):
+                ok = e[5] == (b'xy',)
+            return ok, same
+        one(tag, fname, args_fn, {'V': P('PV'), 'B': P('HB'), 'D': P('PD'), 'A': P('PA'), 'E': P('DeError')}, expect)
+    # ---- accesses and seeds
+    specs = [('SeqAccess', 'next_element_seed', 'PA', ['PS'], 'T', (f'{DO}<PS, HB>',)), ('MapAccess', 'next_key_seed', 'PA', ['PS'], 'K', (f'{DO}<PS, HK>',)),
+             ('MapAccess', 'next_value_seed', 'PA', ['PS'], 'V', (f'{DO}<PS, HB>',)), ('MapAccess', 'next_entry_seed', 'PA', ['PS', 'PS'], 'KV', (f'{DO}<PS, HK>', f'{DO}<PS, HB>')),
+             ('EnumAccess', 'variant_seed', 'PA', ['PS'], 'V', (f'{DO}<PS, HB>',)), ('VariantAccess', 'newtype_variant_seed', 'PVar', ['PS'], 'T', (f'{DO}<PS, HB>',)),
+             ('VariantAccess', 'tuple_variant', 'PVar', [bv(2), 'PV'], 'V', (f'{DO}<PV, HB>',)), ('VariantAccess', 'struct_variant', 'PVar', ['FIELDS', 'PV'], 'V', (f'{DO}<PV, HB>',)),
+             ('VariantAccess', 'unit_variant', 'PVar', [], None, ()), ('DeserializeSeed', 'deserialize', 'PS', ['PD'], 'D', (f'{DO}<PD, HB>',))]
+    for trait, m, inner_t, extra, gname, want_types in specs:
+        ms = override_methods(prog, 'de/mod.rs', trait)
+        if m not in ms:
+            if m in ('next_entry_seed',):
+                continue           # serde's provided method: next_key_seed then next_value_seed (both checked)
+            rep.inconc(f'C01w: {trait}::{m} missing from de::Override')
+            continue
+        by_ref = trait in ('SeqAccess', 'MapAccess')
+
+        def args_fn(it, st, inner_t=inner_t, extra=extra, by_ref=by_ref):
+            me = de_wrap(it, st, Agg(inner_t, (h,) if inner_t == 'PD' else ()))
+            out = [st.ref(me) if by_ref else me]
+            for x in extra:
+                if isinstance(x, str) and x == 'FIELDS':
+                    out.append(st.ref(Seq(tuple(st.ref(bstr(f)) for f in flds))))
+                elif isinstance(x, str):
+                    out.append(Agg(x, (h,) if x == 'PD' else ()))
+                else:
+                    out.append(x)
+            return out
+
+        def expect(evs, rv, s, it, m=m, want_types=want_types, trait=trait):
+            kind = {'SeqAccess': 'access', 'MapAccess': 'access', 'EnumAccess': 'access', 'VariantAccess': 'variant', 'DeserializeSeed': 'seed'}[trait]
+            ok = len(evs) == 1 and evs[0][:2] == (kind, m) and tuple(evs[0][2][:len(want_types)]) == tuple(want_types)
+            same = z3.BoolVal(True)
+            if ok and m == 'tuple_variant':
+                ok = len(evs[0][4]) == 1
+                same = evs[0][4][0] == bv(2) if ok else same
+            if ok and m == 'variant_seed':
+                # the returned variant access is wrapped again
+                okp = it.payload(rv, 'Ok')
+                tup = okp.fields[0] if okp is not None else None
+                ok = isinstance(tup, Agg) and len(tup.fields) == 2 and isinstance(tup.fields[1], Agg) and tup.fields[1].name == DO and tup.fields[1].fields[0].name == 'PVar'
+            return ok, same
+        tenv = {'A': P(inner_t), 'T': P(inner_t) if trait == 'DeserializeSeed' else P('PS'), 'B': P('HB'), 'K': P('PS'), 'V': P('PV') if m in ('tuple_variant', 'struct_variant') else P('PS'), 'D': P('PD')}
+        one(f'de:{trait}::{m}', ms[m], args_fn, tenv, expect)
+    # size_hint forwards
+    for trait in ('SeqAccess', 'MapAccess'):
+        ms = override_methods(prog, 'de/mod.rs', trait)
+        if 'size_hint' in ms:
+            one(f'de:{trait}::size_hint', ms['size_hint'], lambda it, st: [st.ref(de_wrap(it, st, Agg('PA', ())))], {'A': P('PA'), 'B': P('HB')},
+                lambda evs, rv, s, it: (isinstance(rv, Enum), z3.BoolVal(True)))
+    if n_entry < 60:
+        rep.inconc(f'vacuity: only {n_entry} deserializer entry points of de::Override were exercised')
 
 
 def run(rep, tier):
     prog = program(['conjure_serde'])
     rep.bounds['wrapper'] = 'every method of every serde trait impl of ser::Override (one step each, harness inner format and behaviour); scalars symbolic at full width'
     run_ser(rep, prog)
+    run_de(rep, prog)
+    twins(rep)
+
+
+def twins(rep):
+    r, r3 = replay([{'op': 'nested_shapes'}])[0], replay([{'op': 'smile_nested'}])[0]
+    rep.replayed += 2
+    bad = sorted(k for k, v in r.items() if v is not True) + sorted(k for k, v in r3.items() if any(x != 'equal' for x in v.values()))
+    if bad:
+        rep.violation(rep.pid + ':wrapper:native-twin', f'nested shapes that do not round-trip / are not rejected natively: {bad}', {'op': {'op': 'nested_shapes'}, 'native': [r, r3]})
